@@ -5,7 +5,7 @@ PROP = dict(
     extract=["bopomofo", "syllable", "estimate"],      # the fuzzy search predicate of the walk driver uses the C13 model
     lean_targets=["Chewing.Props.C12"],
     runs=[dict(bin="legacy", timeout=900), dict(bin="corrupt", timeout=1500, timeout_thorough=6000)],
-    scope=fn_scope("loader start", "loader cstart", "walk lookup", "walk entries"),
+    scope=fn_scope("loader start", "loader cstart", "walk lookup", "walk entries", "walk open", "walk validate"),
     level="proof",
     exhaustive=False,
     rule="one evaluation = one call of the real code recomputed by the model: UserDictionaryLoader::load / chewing_new2 over a "
